@@ -104,61 +104,62 @@ fn tick() {
 
 // ------------------------------------------------------------------ probe colors
 
+/// `N` components of one type, `repr(C)`: the layout `ArrayCast` asks for. `N` is a parameter because the
+/// array casts under the in-place conversions are monomorphic per component count (1 = luma-like,
+/// 2 = luma + alpha, 3, 4 = color + alpha).
 #[repr(C)]
 #[derive(Clone)]
-pub struct ProbeA<T> {
-    pub x: T,
-    pub y: T,
-    pub z: T,
+pub struct ProbeA<T, const N: usize> {
+    pub c: [T; N],
 }
 
 #[repr(C)]
 #[derive(Clone)]
-pub struct ProbeB<T> {
-    pub p: T,
-    pub q: T,
-    pub r: T,
+pub struct ProbeB<T, const N: usize> {
+    pub c: [T; N],
 }
 
-// Safety: repr(C), three fields of the same type, no requirements on their values.
-unsafe impl<T> ArrayCast for ProbeA<T> {
-    type Array = [T; 3];
+// Safety: repr(C), one field that is the array itself, no requirements on the values.
+unsafe impl<T, const N: usize> ArrayCast for ProbeA<T, N> {
+    type Array = [T; N];
 }
-unsafe impl<T> ArrayCast for ProbeB<T> {
-    type Array = [T; 3];
+unsafe impl<T, const N: usize> ArrayCast for ProbeB<T, N> {
+    type Array = [T; N];
 }
 
-impl<T> FromColorUnclamped<ProbeA<T>> for ProbeB<T> {
-    fn from_color_unclamped(a: ProbeA<T>) -> Self {
+/// A -> B moves every component one slot to the right (the last one to the front), B -> A back.
+impl<T, const N: usize> FromColorUnclamped<ProbeA<T, N>> for ProbeB<T, N> {
+    fn from_color_unclamped(a: ProbeA<T, N>) -> Self {
         tick();
-        ProbeB { p: a.z, q: a.x, r: a.y }
+        let mut c = a.c;
+        c.rotate_right(1 % N.max(1));
+        ProbeB { c }
     }
 }
-impl<T> FromColorUnclamped<ProbeB<T>> for ProbeA<T> {
-    fn from_color_unclamped(b: ProbeB<T>) -> Self {
+impl<T, const N: usize> FromColorUnclamped<ProbeB<T, N>> for ProbeA<T, N> {
+    fn from_color_unclamped(b: ProbeB<T, N>) -> Self {
         tick();
-        ProbeA { x: b.q, y: b.r, z: b.p }
+        let mut c = b.c;
+        c.rotate_left(1 % N.max(1));
+        ProbeA { c }
     }
 }
-impl<T> FromColorUnclamped<ProbeA<T>> for ProbeA<T> {
-    fn from_color_unclamped(a: ProbeA<T>) -> Self {
+impl<T, const N: usize> FromColorUnclamped<ProbeA<T, N>> for ProbeA<T, N> {
+    fn from_color_unclamped(a: ProbeA<T, N>) -> Self {
         tick();
         a
     }
 }
-impl<T> Clamp for ProbeA<T> {
+impl<T, const N: usize> Clamp for ProbeA<T, N> {
     fn clamp(self) -> Self {
         self
     }
 }
-impl<T> Clamp for ProbeB<T> {
+impl<T, const N: usize> Clamp for ProbeB<T, N> {
     fn clamp(self) -> Self {
         self
     }
 }
-
-type A = ProbeA<Tracked>;
-type B = ProbeB<Tracked>;
 
 // ------------------------------------------------------------------ plans
 
@@ -237,18 +238,28 @@ pub struct CrashPlan {
     /// `None`: no fault (the fault-free twin); `Some(k)`: panic on the k-th element conversion
     pub k: Option<u8>,
     pub extra_cap: u8,
+    /// components per probe color (1, 2, 3 or 4); older replay files have none: 3
+    #[serde(default = "three")]
+    pub ncomp: u8,
+}
+
+fn three() -> u8 {
+    3
 }
 
 pub fn enumerate() -> Vec<CrashPlan> {
     let mut v = Vec::new();
-    for entry in ENTRIES {
-        for len in 0..=6u8 {
-            if entry == CrashEntry::SingleFromColorMut && len != 1 {
-                continue;
-            }
-            v.push(CrashPlan { entry, len, k: None, extra_cap: len % 3 });
-            for k in 0..len {
-                v.push(CrashPlan { entry, len, k: Some(k), extra_cap: (len + k) % 3 });
+    // three components: lengths 0..=6; one, two and four components: lengths 0..=3
+    for (ncomp, max_len) in [(3u8, 6u8), (1, 3), (2, 3), (4, 3)] {
+        for entry in ENTRIES {
+            for len in 0..=max_len {
+                if entry == CrashEntry::SingleFromColorMut && len != 1 {
+                    continue;
+                }
+                v.push(CrashPlan { entry, len, k: None, extra_cap: len % 3, ncomp });
+                for k in 0..len {
+                    v.push(CrashPlan { entry, len, k: Some(k), extra_cap: (len + k) % 3, ncomp });
+                }
             }
         }
     }
@@ -257,13 +268,26 @@ pub fn enumerate() -> Vec<CrashPlan> {
 
 // ------------------------------------------------------------------ execution
 
-fn make_buffer(len: usize, extra_cap: usize) -> Vec<A> {
+fn make_buffer<const N: usize>(len: usize, extra_cap: usize) -> Vec<ProbeA<Tracked, N>> {
     let mut v = Vec::with_capacity(len + extra_cap);
     for i in 0..len {
         let b = (i as u32) * 10;
-        v.push(ProbeA { x: Tracked::new(b + 1), y: Tracked::new(b + 2), z: Tracked::new(b + 3) });
+        v.push(ProbeA { c: core::array::from_fn(|j| Tracked::new(b + 1 + j as u32)) });
     }
     v
+}
+
+/// Component values of element `i` in the original (A) layout and after one A -> B conversion.
+fn expect_values<const N: usize>(len: usize, converted: bool) -> Vec<u32> {
+    (0..len as u32)
+        .flat_map(|i| {
+            let mut c: [u32; N] = core::array::from_fn(|j| i * 10 + 1 + j as u32);
+            if converted {
+                c.rotate_right(1 % N.max(1));
+            }
+            c
+        })
+        .collect()
 }
 
 fn arm(k: Option<usize>) {
@@ -276,12 +300,21 @@ fn arm(k: Option<usize>) {
 /// Ids and values of every component slot of a caller-owned buffer, read
 /// through the array view (the slots are `Tracked` whatever color type the
 /// memory currently represents).
-fn slots(buf: &[A]) -> Vec<(u64, u32)> {
-    let arrays: &[[Tracked; 3]] = cast::into_array_slice(buf);
+fn slots<const N: usize>(buf: &[ProbeA<Tracked, N>]) -> Vec<(u64, u32)> {
+    let arrays: &[[Tracked; N]] = cast::into_array_slice(buf);
     arrays.iter().flat_map(|a| a.iter().map(|t| (t.id(), t.val))).collect()
 }
 
 pub fn execute(plan: &CrashPlan, ctx: &mut Ctx<'_>) {
+    match plan.ncomp {
+        1 => execute_n::<1>(plan, ctx),
+        2 => execute_n::<2>(plan, ctx),
+        4 => execute_n::<4>(plan, ctx),
+        _ => execute_n::<3>(plan, ctx),
+    }
+}
+
+fn execute_n<const N: usize>(plan: &CrashPlan, ctx: &mut Ctx<'_>) {
     // fresh registry for this plan (ids restart, so logs are reproducible)
     reg(|r| *r = Registry::default());
     let len = plan.len as usize;
@@ -290,13 +323,13 @@ pub fn execute(plan: &CrashPlan, ctx: &mut Ctx<'_>) {
     ctx.step();
     ctx.cell(name, if k.is_some() { "crash" } else { "no-fault" });
     ev!(ctx, "crash-point world: entry={name} len={len} k={k:?} capacity+{}", plan.extra_cap);
-    let buf = make_buffer(len, plan.extra_cap as usize);
+    let buf = make_buffer::<N>(len, plan.extra_cap as usize);
     let before = (buf.as_ptr() as usize, buf.len(), buf.capacity());
     let key = format!("crash:{name}");
 
     // what the caller still owns after the call (slice entry points), and what came back (owned entry points)
-    let mut kept: Option<Vec<A>> = None;
-    let mut returned: Option<(Vec<B>, (usize, usize, usize))> = None;
+    let mut kept: Option<Vec<ProbeA<Tracked, N>>> = None;
+    let mut returned: Option<(Vec<ProbeB<Tracked, N>>, (usize, usize, usize))> = None;
 
     let outcome = match plan.entry {
         CrashEntry::MapVecInPlace
@@ -307,30 +340,30 @@ pub fn execute(plan: &CrashPlan, ctx: &mut Ctx<'_>) {
         | CrashEntry::BoxFromColorUnclamped => {
             arm(k);
             let entry = plan.entry;
-            catch(move || -> (Vec<B>, (usize, usize, usize), (usize, usize, usize)) {
+            catch(move || -> (Vec<ProbeB<Tracked, N>>, (usize, usize, usize), (usize, usize, usize)) {
                 match entry {
                     CrashEntry::MapVecInPlace => {
-                        let out: Vec<B> = cast::map_vec_in_place(buf, |a: A| B::from_color(a));
+                        let out: Vec<ProbeB<Tracked, N>> = cast::map_vec_in_place(buf, |a: ProbeA<Tracked, N>| <ProbeB<Tracked, N>>::from_color(a));
                         let after = (out.as_ptr() as usize, out.len(), out.capacity());
                         (out, before, after)
                     }
                     CrashEntry::VecFromColor => {
-                        let out: Vec<B> = Vec::<B>::from_color(buf);
+                        let out: Vec<ProbeB<Tracked, N>> = Vec::<ProbeB<Tracked, N>>::from_color(buf);
                         let after = (out.as_ptr() as usize, out.len(), out.capacity());
                         (out, before, after)
                     }
                     CrashEntry::VecFromColorUnclamped => {
-                        let out: Vec<B> = Vec::<B>::from_color_unclamped(buf);
+                        let out: Vec<ProbeB<Tracked, N>> = Vec::<ProbeB<Tracked, N>>::from_color_unclamped(buf);
                         let after = (out.as_ptr() as usize, out.len(), out.capacity());
                         (out, before, after)
                     }
                     _ => {
-                        let boxed: Box<[A]> = buf.into_boxed_slice();
+                        let boxed: Box<[ProbeA<Tracked, N>]> = buf.into_boxed_slice();
                         let b4 = (boxed.as_ptr() as usize, boxed.len(), boxed.len());
-                        let out: Box<[B]> = match entry {
-                            CrashEntry::MapSliceBoxInPlace => cast::map_slice_box_in_place(boxed, |a: A| B::from_color(a)),
-                            CrashEntry::BoxFromColor => Box::<[B]>::from_color(boxed),
-                            _ => Box::<[B]>::from_color_unclamped(boxed),
+                        let out: Box<[ProbeB<Tracked, N>]> = match entry {
+                            CrashEntry::MapSliceBoxInPlace => cast::map_slice_box_in_place(boxed, |a: ProbeA<Tracked, N>| <ProbeB<Tracked, N>>::from_color(a)),
+                            CrashEntry::BoxFromColor => Box::<[ProbeB<Tracked, N>]>::from_color(boxed),
+                            _ => Box::<[ProbeB<Tracked, N>]>::from_color_unclamped(boxed),
                         };
                         let after = (out.as_ptr() as usize, out.len(), out.len());
                         (out.into_vec(), b4, after)
@@ -349,21 +382,21 @@ pub fn execute(plan: &CrashPlan, ctx: &mut Ctx<'_>) {
             let r = catch(|| {
                 match entry {
                     CrashEntry::SliceFromColorMut => {
-                        let g = <[B]>::from_color_mut(&mut buf[..]);
+                        let g = <[ProbeB<Tracked, N>]>::from_color_mut(&mut buf[..]);
                         let same = g.as_ptr() as usize == before.0 && g.len() == before.1;
                         // leave the converted state behind; restoring is GuardDrop's business
                         core::mem::forget(g);
                         same
                     }
                     CrashEntry::SliceFromColorUnclampedMut => {
-                        let g = <[B]>::from_color_unclamped_mut(&mut buf[..]);
+                        let g = <[ProbeB<Tracked, N>]>::from_color_unclamped_mut(&mut buf[..]);
                         let same = g.as_ptr() as usize == before.0 && g.len() == before.1;
                         core::mem::forget(g);
                         same
                     }
                     _ => {
-                        let g = B::from_color_mut(&mut buf[0]);
-                        let same = (&*g) as *const B as usize == before.0;
+                        let g = <ProbeB<Tracked, N>>::from_color_mut(&mut buf[0]);
+                        let same = (&*g) as *const ProbeB<Tracked, N> as usize == before.0;
                         core::mem::forget(g);
                         same
                     }
@@ -379,28 +412,28 @@ pub fn execute(plan: &CrashPlan, ctx: &mut Ctx<'_>) {
             let r = catch(|| {
                 match entry {
                     CrashEntry::GuardDrop => {
-                        let g = <[B]>::from_color_mut(&mut buf[..]);
+                        let g = <[ProbeB<Tracked, N>]>::from_color_mut(&mut buf[..]);
                         arm(k);
                         drop(g); // the restoring conversion panics inside Drop
                         true
                     }
                     CrashEntry::GuardRestore => {
-                        let g = <[B]>::from_color_mut(&mut buf[..]);
+                        let g = <[ProbeB<Tracked, N>]>::from_color_mut(&mut buf[..]);
                         arm(k);
-                        let r: &mut [A] = g.restore();
+                        let r: &mut [ProbeA<Tracked, N>] = g.restore();
                         r.as_ptr() as usize == before.0 && r.len() == before.1
                     }
                     CrashEntry::UnclampedGuardDrop => {
-                        let g = <[B]>::from_color_unclamped_mut(&mut buf[..]);
+                        let g = <[ProbeB<Tracked, N>]>::from_color_unclamped_mut(&mut buf[..]);
                         arm(k);
                         drop(g);
                         true
                     }
                     _ => {
-                        let g = <[B]>::from_color_mut(&mut buf[..]);
+                        let g = <[ProbeB<Tracked, N>]>::from_color_mut(&mut buf[..]);
                         arm(k);
-                        // A -> B -> A again, in place, without an extra restoring hop
-                        let g2 = g.then_into_color_mut::<[A]>();
+                        // ProbeA<Tracked, N> -> ProbeB<Tracked, N> -> ProbeA<Tracked, N> again, in place, without an extra restoring hop
+                        let g2 = g.then_into_color_mut::<[ProbeA<Tracked, N>]>();
                         let same = g2.as_ptr() as usize == before.0 && g2.len() == before.1;
                         arm(None);
                         drop(g2);
@@ -466,19 +499,10 @@ pub fn execute(plan: &CrashPlan, ctx: &mut Ctx<'_>) {
             return;
         }
         if !fired {
-            // values moved as the conversions say: forgotten open guard = B layout (z, x, y);
+            // values moved as the conversions say: forgotten open guard = ProbeB<Tracked, N> layout (z, x, y);
             // dropped / restored / round-tripped = back to (x, y, z)
             let converted = matches!(plan.entry, CrashEntry::SliceFromColorMut | CrashEntry::SliceFromColorUnclampedMut | CrashEntry::SingleFromColorMut);
-            let expect: Vec<u32> = (0..len as u32)
-                .flat_map(|i| {
-                    let b = i * 10;
-                    if converted {
-                        [b + 3, b + 1, b + 2]
-                    } else {
-                        [b + 1, b + 2, b + 3]
-                    }
-                })
-                .collect();
+            let expect: Vec<u32> = expect_values::<N>(len, converted);
             let got: Vec<u32> = s.iter().map(|x| x.1).collect();
             if got != expect {
                 ctx.fail(&format!("{key}:values"), &key, format!("{name} len={len}: component values {got:?}, expected {expect:?}"));
@@ -502,8 +526,8 @@ pub fn execute(plan: &CrashPlan, ctx: &mut Ctx<'_>) {
         }
     }
     if let Some((out, _after)) = returned {
-        let got: Vec<u32> = cast::into_array_slice(&out[..]).iter().flat_map(|a: &[Tracked; 3]| a.iter().map(|t| t.val)).collect();
-        let expect: Vec<u32> = (0..len as u32).flat_map(|i| [i * 10 + 3, i * 10 + 1, i * 10 + 2]).collect();
+        let got: Vec<u32> = cast::into_array_slice(&out[..]).iter().flat_map(|a: &[Tracked; N]| a.iter().map(|t| t.val)).collect();
+        let expect: Vec<u32> = expect_values::<N>(len, true);
         if got != expect {
             ctx.fail(&format!("{key}:values"), &key, format!("{name} len={len}: component values {got:?}, expected {expect:?}"));
             return;
